@@ -64,10 +64,6 @@ Proof.
   destruct H as [H|H]; [injection H as <- <-; right; lia|left; exact H].
 Qed.
 
-Lemma forall2_in_l {A B} (R : A -> B -> Prop) l l' : Forall2 R l l' -> forall y, In y l' -> exists x, In x l /\ R x y.
-Proof. induction 1 as [|a b l l' Hab _ IH]; intros y Hy; [destruct Hy|]. destruct Hy as [<-|Hy]; [exists a; split; [left; reflexivity|exact Hab]|].
-  destruct (IH y Hy) as [x [Hx Hr]]. exists x. split; [right; exact Hx|exact Hr]. Qed.
-
 (* what one Definition._clone adds, relative to the state s it starts from *)
 Record StageOut (s0 s G : state) (m m' : memo) (K : list id) : Prop := mkSO {
   so_sub : msub m m';
@@ -232,7 +228,7 @@ Proof.
     - rewrite (src_kind_child s0 HT _ _ _ H) in Hk0. discriminate.
     - destruct (bundles_kinds s0 HT RCables RWires d _ H) as [H'|H']; rewrite Hk0 in H'; discriminate.
     - apply in_flat_map in H as [p [Hp Hy]]. destruct Hy as [<-|Hy]; [rewrite (src_kind_child s0 HT _ _ _ Hp) in Hk0; discriminate|].
-      destruct (forall2_in_r _ _ _ Fa2 p Hp) as [p' [Hp' [Hpm Himg]]]. destruct (Himg a0 Hy) as [i' [Hi'm Hi'k]].
+      destruct (forall2_in_r _ _ _ Fa2 p Hp) as [p' [Hp' [Hpm Himg]]]. destruct (proj1 Himg a0 Hy) as [i' [Hi'm Hi'k]].
       assert (Eb : i' = b) by (apply (memo_fun m4 a0 i' b (pk_fun _ _ _ _ Q4)); [apply Sb4, Sb3; exact Hi'm|exact Hab0]). subst i'.
       apply in_flat_map. exists p'. split; [exact Hp'|]. rewrite (Hk5 RPins p') by (pose proof (HP' p' Hp'); lia).
       destruct Ks3 as [_ Ks3]. destruct Ks4 as [_ Ks4]. rewrite Ks4, Ks3 by (pose proof (R2 p' Hp'); lia). exact Hi'k.
@@ -242,7 +238,7 @@ Proof.
     destruct (Hkeys a0 Hin) as [H|[H|[H|[H|H]]]]; [| | | |exfalso; apply (Hnewkey a0 b Hab0 Hge H)].
     - rewrite (src_kind_child s0 HT _ _ _ H) in Hk0. discriminate.
     - apply in_flat_map in H as [p [Hp Hy]]. destruct Hy as [<-|Hy]; [rewrite (src_kind_child s0 HT _ _ _ Hp) in Hk0; discriminate|].
-      destruct (forall2_in_r _ _ _ Fa3 p Hp) as [p' [Hp' [Hpm Himg]]]. destruct (Himg a0 Hy) as [i' [Hi'm Hi'k]].
+      destruct (forall2_in_r _ _ _ Fa3 p Hp) as [p' [Hp' [Hpm Himg]]]. destruct (proj1 Himg a0 Hy) as [i' [Hi'm Hi'k]].
       assert (Eb : i' = b) by (apply (memo_fun m4 a0 i' b (pk_fun _ _ _ _ Q4)); [apply Sb4; exact Hi'm|exact Hab0]). subst i'.
       apply in_flat_map. exists p'. split; [exact Hp'|]. rewrite Hk6, (Hk5 RWires p') by (pose proof (HC' p' Hp'); lia).
       destruct Ks4 as [_ Ks4]. rewrite Ks4 by (pose proof (R3 p' Hp'); lia). exact Hi'k.
@@ -311,14 +307,20 @@ Proof.
   - apply Sb4, Sb3, Sb2. left. reflexivity.
   - intros p Hp. destruct (forall2_in_r _ _ _ Fa2 p Hp) as [p' [Hp' [Hpm Himg]]]. exists p'.
     split; [apply Sb4, Sb3; exact Hpm|]. split; [rewrite Hk8, Hp5; exact Hp'|].
-    intros i Hi. destruct (Himg i Hi) as [i' [Hi'm Hi'k]]. exists i'. split; [apply Sb4, Sb3; exact Hi'm|].
-    rewrite Hk8, (Hk5 RPins p') by (pose proof (HP' p' Hp'); lia).
-    destruct Ks3 as [_ Ks3]. destruct Ks4 as [_ Ks4]. rewrite Ks4, Ks3 by (pose proof (R2 p' Hp'); lia). exact Hi'k.
+    assert (Hkp' : kids s8 RPins p' = kids s2 RPins p').
+    { rewrite Hk8, (Hk5 RPins p') by (pose proof (HP' p' Hp'); lia).
+      destruct Ks3 as [_ Ks3]. destruct Ks4 as [_ Ks4]. rewrite Ks4, Ks3 by (pose proof (R2 p' Hp'); lia). reflexivity. }
+    split.
+    + intros i Hi. destruct (proj1 Himg i Hi) as [i' [Hi'm Hi'k]]. exists i'. split; [apply Sb4, Sb3; exact Hi'm|]. rewrite Hkp'. exact Hi'k.
+    + intros i' Hi'. rewrite Hkp' in Hi'. destruct (proj2 Himg i' Hi') as [i [Him Hik]]. exists i. split; [apply Sb4, Sb3; exact Him|exact Hik].
   - intros p Hp. destruct (forall2_in_r _ _ _ Fa3 p Hp) as [p' [Hp' [Hpm Himg]]]. exists p'.
     split; [apply Sb4; exact Hpm|]. split; [rewrite Hk8, Hc5; exact Hp'|].
-    intros i Hi. destruct (Himg i Hi) as [i' [Hi'm Hi'k]]. exists i'. split; [apply Sb4; exact Hi'm|].
-    rewrite Hk8, (Hk5 RWires p') by (pose proof (HC' p' Hp'); lia).
-    destruct Ks4 as [_ Ks4]. rewrite Ks4 by (pose proof (R3 p' Hp'); lia). exact Hi'k.
+    assert (Hkp' : kids s8 RWires p' = kids s3 RWires p').
+    { rewrite Hk8, (Hk5 RWires p') by (pose proof (HC' p' Hp'); lia).
+      destruct Ks4 as [_ Ks4]. rewrite Ks4 by (pose proof (R3 p' Hp'); lia). reflexivity. }
+    split.
+    + intros i Hi. destruct (proj1 Himg i Hi) as [i' [Hi'm Hi'k]]. exists i'. split; [apply Sb4; exact Hi'm|]. rewrite Hkp'. exact Hi'k.
+    + intros i' Hi'. rewrite Hkp' in Hi'. destruct (proj2 Himg i' Hi') as [i [Him Hik]]. exists i. split; [apply Sb4; exact Him|exact Hik].
   - intros p Hp. destruct (forall2_in_r _ _ _ Fa4 p Hp) as [p' [Hp' [Hpm _]]]. exists p'.
     split; [exact Hpm|]. rewrite Hk8, Hx5. exact Hp'.
   - intros p' Hp'. rewrite Hk8, Hp5 in Hp'.
